@@ -37,6 +37,12 @@ CLAIMED = {
     "C17": dict(
         text="Theorems: the transcribed range check of Primitive::new (radix detection, str::replace of 0x, from_str_radix with its sign and width rules) accepts an integer constant iff its mathematical value lies in the range of the declared type and unsigned types carry no sign - for every hexadecimal, decimal, negative and fractional literal the grammar admits, of any length; without leading zeros the C reading of the pasted literal is its mathematical value, with leading zeros it is not (witness). Tie: exhaustive boundary neighbourhoods of all eight integer types in every literal form through the real parser against model and Spec (Coq-evaluated), and every accepted constant compiled and printed by gcc, clang, g++, clang++, rustc and javac (value; declared type in C++ and Rust).",
         ref="7 (C17)", technique="Coq proof of range-check exactness over all literals + exhaustive boundary sweep through the real parser + compiled value probes in four languages"),
+    "C16": dict(
+        text="Partial proof. Proved: on every pair tree of the shapes the grammar produces without comments between the tokens of a declaration and with array sizes in 1..65535, the transcribed PST->AST conversion is the same function in debug and release builds and never reaches an unwrap_unchecked on None/Err; the front-end model in Release mode either hits a wrapped usize operation or equals Debug; model functions terminate by construction. The unrestricted statements are refuted by machine-checked witnesses (array size 0, comment inside a parameter) that the release binary reproduces (one as a SIGSEGV). Not modelled, observed only: memory faults, stack depth and running time of the real binaries - every generated and corpus input is run through the debug and release binaries (exit status/signal, time limit, output hash) and, when pest accepts it, its dumped pair tree through the model in both modes against the real parser.",
+        ref="7 (C16)", technique="Coq proofs (mode agreement, no UB on well-formed trees) + refutation witnesses + debug/release differential execution on byte-level inputs"),
+    "C14": dict(
+        text="Partial proof. Proved on the transcribed PST->AST conversion: comments between declarations, between struct fields and between interface members (no documentation pending) do not change the AST; documentation reaches only the immediately following member and only a method keeps it; an ordinary comment between documentation and method discards it (witness, known finding). The text->pair-tree step (pest), --marking and --no-typed-objects are decided by metamorphic runs: whitespace/line-break re-renderings, comments at declaration level and between tokens, documentation changed/removed, marking texts, typed vs untyped, each against the plain rendering over six backend outputs; the dumped pair trees of the variants go through the model as well.",
+        ref="7 (C14)", technique="Coq proofs of comment/doc invariance on the PST->AST model + metamorphic runs of the real binary"),
 }
 NOTE = ("Trusted: Coq 8.16.1 kernel (vm_compute used; no native_compute), no axioms; lib/translate.py; the harness crate; "
         "python driver and scrapers. Modelled rather than verified: all of /repo (theorems are about coq/theories; the tie is "
